@@ -93,7 +93,7 @@ class Gen:
         for j in range(n):
             kinds = ['assign', 'assign', 'assign', 'aug']
             if depth > 0:
-                kinds += ['with', 'with', 'if', 'if1', 'while', 'for', 'tuple']
+                kinds += ['with', 'with', 'if', 'if2', 'if1', 'while', 'for', 'tuple']
             kind = r.choice(kinds)
             if kind == 'assign':
                 v = r.choice(vars_) if r.random() < 0.35 else self.fresh()
@@ -120,6 +120,22 @@ class Gen:
                 self.lines.append(f'{pad}    {v} = {self.expr(vars_, 2, scope)}')
                 if v not in vars_:
                     vars_.append(v)
+            elif kind == 'if2':
+                # both arms rebind one or two existing variables AND introduce one or two new ones, assigned in different orders in
+                # the two arms; the new names sort before, between and after the existing ones (the lowering packs the changed
+                # variables into a tuple after each arm and unpacks it after the statement)
+                old = r.sample(vars_, min(len(vars_), r.choice([1, 1, 2])))
+                new = [self.fresh(r.choice(['a', 'd', 'm', 'w', 'z'])) for _ in range(r.choice([1, 1, 2]))]
+                self.lines.append(f'{pad}if {self.expr(vars_, 1, scope)} {r.choice(["<", "<=", ">", ">="])} {self.expr(vars_, 1, scope)}:')
+                for arm in (0, 1):
+                    if arm:
+                        self.lines.append(f'{pad}else:')
+                    names = old + new
+                    r.shuffle(names)
+                    for v in names:
+                        self.lines.append(f'{pad}    {v} = {self.expr(vars_, 2, scope)}')
+                vars_ += new
+                self.features = getattr(self, 'features', set()) | {'if_rebinds_and_introduces'}
             elif kind == 'if1':
                 v = r.choice(vars_)
                 self.lines.append(f'{pad}if {self.expr(vars_, 1, scope)} {r.choice(["<", ">"])} {self.expr(vars_, 1, scope)}:')
